@@ -29,6 +29,9 @@ pub struct CmdFate {
     pub entered: Option<usize>,
     pub lost: bool,
     pub parked: bool,
+    /// the hook saw the ring full when this command was (not) pushed: only then is its loss the
+    /// omission that C09 permits
+    pub saw_full: bool,
 }
 
 #[derive(Clone, Debug)]
@@ -151,6 +154,7 @@ impl<'a> Analysis<'a> {
                     entered: None,
                     lost: false,
                     parked: false,
+                    saw_full: false,
                 });
                 open.insert(e.tid, cmds.len() - 1);
             } else if e.kind == fv::P_PARKED && e.b == 1 {
@@ -184,6 +188,7 @@ impl<'a> Analysis<'a> {
                                 }
                             }
                         } else if let Some(&ci) = open.get(&e.tid) {
+                            cmds[ci].saw_full = true;
                             if !cmds[ci].force {
                                 // send(): replay failed, the new value is not even tried
                                 cmds[ci].lost = true;
@@ -196,10 +201,12 @@ impl<'a> Analysis<'a> {
                             if !full {
                                 cmds[ci].entered = Some(i);
                             } else if cmds[ci].force {
+                                cmds[ci].saw_full = true;
                                 cmds[ci].parked = true;
                                 parked_count += 1;
                                 parked_q.entry(e.tid).or_default().push(ci);
                             } else {
+                                cmds[ci].saw_full = true;
                                 cmds[ci].lost = true;
                             }
                         }
@@ -210,6 +217,7 @@ impl<'a> Analysis<'a> {
                             if let Some(pos) = q.iter().position(|&ci| cmds[ci].entered.is_none() && !cmds[ci].lost) {
                                 let ci = q[pos];
                                 if full {
+                                    cmds[ci].saw_full = true;
                                     cmds[ci].lost = true;
                                 } else {
                                     cmds[ci].entered = Some(i);
@@ -341,12 +349,13 @@ impl<'a> Analysis<'a> {
         let mut lost_submit_ops = HashSet::new();
         let mut lost_starts = HashSet::new();
         for c in &cmds {
-            if c.lost && c.kind == 3 {
+            // only a loss to a ring that was seen full is a permitted omission
+            if c.lost && c.saw_full && c.kind == 3 {
                 if let Some(o) = c.op {
                     lost_submit_ops.insert(o);
                 }
             }
-            if c.lost && c.kind == 0 {
+            if c.lost && c.saw_full && c.kind == 0 {
                 lost_starts.insert(c.collect);
             }
         }
